@@ -28,6 +28,9 @@ import (
 // helpers see many iteration orders.  Everything that came out of a map is sorted before printing.
 
 // callback families (identical in Lean: Kinds/C14.lean)
+// namedKey: a named type whose underlying type is int
+type namedKey int
+
 func c14P(i string) func(int) bool { return ft1(c14P0(i)) }
 
 func c14P0(i string) func(int) bool {
@@ -326,6 +329,30 @@ func (r *c14Runner) Do(op []string) string {
 		return showMap(out)
 	case "find":
 		return showMap(gogu.Find(r.mkMap(op[1]), c14P(op[2])))
+	case "find@named", "findbykey@named": // maps keyed by a NAMED int type
+		src := r.mkMap(op[1])
+		var nm map[namedKey]int
+		if src != nil {
+			nm = make(map[namedKey]int, len(src))
+			for k, v := range src {
+				nm[namedKey(k)] = v
+			}
+		}
+		var res map[namedKey]int
+		if op[0] == "find@named" {
+			res = gogu.Find(nm, c14P(op[2]))
+		} else {
+			p := c14P(op[2])
+			res = gogu.FindByKey(nm, func(k namedKey) bool { return p(int(k)) })
+		}
+		var out map[int]int
+		if res != nil {
+			out = make(map[int]int, len(res))
+			for k, v := range res {
+				out[int(k)] = v
+			}
+		}
+		return showMap(out)
 	case "findkey":
 		return itoa(gogu.FindKey(r.mkMap(op[1]), c14P(op[2])))
 	case "findbykey":
@@ -442,7 +469,7 @@ func c14MapOps(m string, keyLists []string, probeVals []int, reps int) []string 
 		ops = append(ops, "pickby "+m+" "+q, "omitby "+m+" "+q, "pickomitby "+m+" "+q)
 	}
 	for _, p := range c14Preds {
-		ops = append(ops, "filtermap "+m+" "+p, "filteromit "+m+" "+p, "find "+m+" "+p,
+		ops = append(ops, "filtermap "+m+" "+p, "filteromit "+m+" "+p, "find "+m+" "+p, "find@named "+m+" "+p, "findbykey@named "+m+" "+p,
 			"mapevery "+m+" "+p, "mapsome "+m+" "+p)
 	}
 	for _, f := range c14Fs {
